@@ -596,6 +596,7 @@ def chain? : List String → Option (List (Wrapper Float))
       `[filter, psd, psd behind the wrapper steps, …]` (three numbers per call) or an error name
   `c20.couple2d is_y rot R [dx,…] [dy,…] [aligned factor,…]` -> `coupling_correction_2d(dx, dy, 2R, is_y, rot)`, one factor per pair
   `c20.stimson r1 r2 d [1|2]` -> `coupling_correction_factor_stimson(r1, r2, d)`: `[factor of bead 1, factor of bead 2]` (or the one asked for) or an error name
+  `c20.stimsonlist R [d,…]` -> the first factor of `coupling_correction_factor_stimson(R, R, d)` for every `d`, or an error name
   `c20.bispherical r1 r2 d` -> `to_curvilinear_coordinates(r1, r2, d)`: `[a, alpha, beta]` or an error name
   `c20.water V|D [T,…] c|N p|N` -> `viscosity_of_water` / `density_of_water` at each temperature, or an error name -/
 def handle : List String → Option String
@@ -744,6 +745,14 @@ def handle : List String → Option String
     match stimson (← float? r1) (← float? r2) (← float? d) 100000 with
     | .error e => some (showErr e)
     | .ok (c1, c2) => some (showFloat (if which == "1" then c1 else c2))
+  | ["c20.stimsonlist", R, ds] => do
+    -- the factor along the line of centres for equal beads at each of the given distances (what `coupling_correction_2d`
+    -- asks `coupling_correction_factor_stimson` for, pair by pair)
+    let R ← float? R; let ds ← floatList? ds
+    let rs := ds.map fun d => (stimson R R d 100000).map (·.1)
+    match rs.mapM id with
+    | .error e => some (showErr e)
+    | .ok vs => some (showFloatList vs)
   | ["c20.bispherical", r1, r2, d] => do
     match toCurvilinear (← float? r1) (← float? r2) (← float? d) with
     | .error e => some (showErr e)
